@@ -57,6 +57,13 @@ def repeat_harness(L, K, what, overlap, mode):
             elif what == "region":
                 reg = core.AudioRegion(data, sr, sw, ch)
                 runs = [list(reg.split(analysis_window=SymRat(B, sr), validator=mkval()[0], **skw)) for _ in range(3)]
+            elif what == "reader-reopen":
+                # a plain (non-recording) reader over a buffer: read to the end, close, open again - the buffer restarts, so must the reader
+                rd = util.AudioReader(data, block_dur=SymRat(B, sr), sr=sr, sw=sw, ch=ch)
+                runs = []
+                for _ in range(3):
+                    runs.append(list(core.split(rd, validator=mkval()[0], **skw)))
+                    rd.close()
             else:
                 kw = dict(block_dur=SymRat(B, sr), sr=sr, sw=sw, ch=ch, record=True)
                 if overlap:
@@ -191,6 +198,12 @@ def replay_fn(c):
         elif c["what"] == "region":
             reg = ak.AudioRegion(data, sr, sw, ch)
             runs = [list(reg.split(analysis_window=B / sr, validator=val(), **skw)) for _ in range(3)]
+        elif c["what"] == "reader-reopen":
+            rd = ak.AudioReader(data, block_dur=B / sr, sr=sr, sw=sw, ch=ch)
+            runs = []
+            for _ in range(3):
+                runs.append(list(ak.split(rd, validator=val(), **skw)))
+                rd.close()
         else:
             kw = dict(block_dur=B / sr, sr=sr, sw=sw, ch=ch, record=True)
             if c["overlap"]:
@@ -235,6 +248,7 @@ def replay(c):
 
 
 def run(rep):
+    tok.VALIDATE[0] = replay_fn
     b = BOUNDS[rep.tier]
     L = loader.load()
     K = b["K"]
@@ -243,7 +257,7 @@ def run(rep):
                                     "with a fresh reader over its data; <= %d windows, n, window, hop, counts unbounded" % (K, K))
     rep.bounds["buffer source"] = "arbitrary position, read(j), close, open, read(k): unbounded n, p0, j, k"
     modes = (0, 6) if rep.tier == "quick" else tok.MODES
-    for what, overlap in (("bytes", False), ("region", False), ("recorder", False), ("recorder", True)):
+    for what, overlap in (("bytes", False), ("region", False), ("reader-reopen", False), ("recorder", False), ("recorder", True)):
         for mode in (modes if what == "recorder" else modes[:1]):
             hn = "repeat[%s%s,K=%d,mode=%d]" % (what, ",overlap" if overlap else "", K, mode)
             ex = explore(repeat_harness(L, K, what, overlap, mode))
